@@ -11,6 +11,7 @@ import (
 	"sort"
 	"strconv"
 	"strings"
+	"sync/atomic"
 	"testing"
 	"time"
 )
@@ -154,7 +155,24 @@ func RunWorker(t *testing.T, eng Engine, cfg WorkerCfg) *Fragment {
 	seenSig := map[string]*ViolationRec{}
 	rw := NewRaceWatcher()
 	fmt.Printf("worker engine=%s profile=%s property=%s VERIF_SEED=%d budget=%v\n", eng.Name(), cfg.Profile, cfg.Property, cfg.Seed, cfg.Budget)
-	for iter := uint64(0); ; iter++ {
+	var curIter atomic.Uint64
+	stopWD := StartWatchdog(&beat, func(uint64) {
+		iter := curIter.Load() - 1
+		// A single run did not finish in wall-clock time: a loop without any yield
+		// point (the kernel cannot see it). Record which run and die; the driver
+		// re-executes that run in fresh processes before reporting anything.
+		rec := map[string]any{"engine": eng.Name(), "profile": cfg.Profile, "seed": cfg.Seed, "iter": iter, "conc_pct": cfg.ConcPct}
+		b, _ := json.Marshal(rec)
+		if cfg.Out != "" {
+			os.WriteFile(cfg.Out+".hang", b, 0o644)
+		}
+		fmt.Printf("WATCHDOG run seed=%d iter=%d did not finish\n", cfg.Seed, iter)
+		os.Exit(3)
+	})
+	defer stopWD()
+	startIter, _ := strconv.ParseUint(getenv("SIM_ITER", "0"), 10, 64)
+	for iter := startIter; ; iter++ {
+		curIter.Store(iter + 1)
 		if cfg.MaxRuns > 0 && fr.Runs >= cfg.MaxRuns {
 			break
 		}
@@ -165,6 +183,7 @@ func RunWorker(t *testing.T, eng Engine, cfg WorkerCfg) *Fragment {
 		conc := int(r.IntN(100)) < cfg.ConcPct
 		plan := eng.Generate(r, cfg.Profile, conc, cfg.Avoid)
 		src := NewSearch(eng.Strategy(plan, r))
+		beat.Add(1)
 		res := eng.Run(t, plan, src, false)
 		if rw != nil {
 			rw.Check(res)
@@ -273,6 +292,7 @@ func ShrinkAndWrite(t *testing.T, eng Engine, plan Plan, res *Result, v Violatio
 		Remove:   eng.Remove,
 		Simplify: eng.Simplify,
 		Run: func(c Candidate[Plan]) bool {
+			beat.Add(1)
 			r := eng.Run(t, c.Plan, NewReplay(c.Tape), false)
 			if rw := cfg.race; rw != nil {
 				rw.Check(r)
@@ -351,4 +371,36 @@ func RunReplay(t *testing.T, eng Engine, path string, log bool) (bool, *Result, 
 		}
 	}
 	return false, res, &rp, nil
+}
+
+// beat counts executed runs (search, shrink and replay alike).
+var beat atomic.Uint64
+
+// StartWatchdog watches (in real time, outside any bubble) that the iteration
+// counter keeps moving; onHang is called with the stuck iteration.
+func StartWatchdog(cur *atomic.Uint64, onHang func(iter uint64)) (stop func()) {
+	limit, _ := time.ParseDuration(getenv("SIM_WATCHDOG", "30s"))
+	done := make(chan struct{})
+	go func() {
+		last, since := uint64(0), time.Now()
+		t := time.NewTicker(time.Second)
+		defer t.Stop()
+		for {
+			select {
+			case <-done:
+				return
+			case <-t.C:
+			}
+			c := cur.Load()
+			if c != last {
+				last, since = c, time.Now()
+				continue
+			}
+			if c != 0 && time.Since(since) > limit {
+				onHang(c - 1)
+				return
+			}
+		}
+	}()
+	return func() { close(done) }
 }
